@@ -10,6 +10,7 @@ import (
 	"os"
 	"regexp"
 	"strings"
+	"sync"
 )
 
 type Obl struct {
@@ -171,6 +172,39 @@ func cmdName(c string) string {
 // that share a symbol with what is kept. Dropping an assumption is sound for
 // proving; a dropped assumption shares no symbol with the goal.
 func sliceCmds(cmds []string, seeds ...string) []string {
+	return sliceCmdsCached(nil, cmds, seeds...)
+}
+
+// tokCache memoises the declared-symbol tokens of command strings (the same
+// commands are sliced once per obligation).
+type tokCache struct {
+	mu   sync.Mutex
+	toks map[string][]string
+}
+
+var globalTok = &tokCache{toks: map[string][]string{}}
+
+func allTokens(c string) []string {
+	globalTok.mu.Lock()
+	t, ok := globalTok.toks[c]
+	globalTok.mu.Unlock()
+	if ok {
+		return t
+	}
+	seen := map[string]bool{}
+	for _, x := range tokenRe.FindAllString(c, -1) {
+		if !seen[x] {
+			seen[x] = true
+			t = append(t, x)
+		}
+	}
+	globalTok.mu.Lock()
+	globalTok.toks[c] = t
+	globalTok.mu.Unlock()
+	return t
+}
+
+func sliceCmdsCached(_ *VC, cmds []string, seeds ...string) []string {
 	names := map[string]bool{}
 	for _, c := range cmds {
 		if n := cmdName(c); n != "" {
@@ -179,10 +213,8 @@ func sliceCmds(cmds []string, seeds ...string) []string {
 	}
 	toks := make([][]string, len(cmds))
 	for i, c := range cmds {
-		seen := map[string]bool{}
-		for _, t := range tokenRe.FindAllString(c, -1) {
-			if names[t] && !seen[t] {
-				seen[t] = true
+		for _, t := range allTokens(c) {
+			if names[t] {
 				toks[i] = append(toks[i], t)
 			}
 		}
@@ -195,35 +227,47 @@ func sliceCmds(cmds []string, seeds ...string) []string {
 			}
 		}
 	}
+	// index: symbol -> commands mentioning it
+	users := map[string][]int{}
+	for i := range cmds {
+		for _, t := range toks[i] {
+			users[t] = append(users[t], i)
+		}
+	}
 	keep := make([]bool, len(cmds))
-	for changed := true; changed; {
-		changed = false
-		for i, c := range cmds {
-			if keep[i] {
+	var work []string
+	for t := range need {
+		work = append(work, t)
+	}
+	include := func(i int) {
+		if keep[i] {
+			return
+		}
+		keep[i] = true
+		for _, t := range toks[i] {
+			if !need[t] {
+				need[t] = true
+				work = append(work, t)
+			}
+		}
+	}
+	for i, c := range cmds {
+		if cmdName(c) == "" && len(toks[i]) == 0 && !strings.HasPrefix(c, "(assert true") {
+			keep[i] = true // closed assertion
+		}
+	}
+	for len(work) > 0 {
+		t := work[len(work)-1]
+		work = work[:len(work)-1]
+		for _, i := range users[t] {
+			c := cmds[i]
+			if n := cmdName(c); n != "" {
+				if n == t {
+					include(i)
+				}
 				continue
 			}
-			n := cmdName(c)
-			hit := false
-			if n != "" {
-				hit = need[n]
-			} else {
-				for _, t := range toks[i] {
-					if need[t] {
-						hit = true
-						break
-					}
-				}
-				if len(toks[i]) == 0 && !strings.HasPrefix(c, "(assert true") {
-					hit = true // closed assertion (no symbols): keep
-				}
-			}
-			if hit {
-				keep[i] = true
-				changed = true
-				for _, t := range toks[i] {
-					need[t] = true
-				}
-			}
+			include(i)
 		}
 	}
 	var out []string
